@@ -41,13 +41,19 @@ def run(ctx):
     for d in EXTRACTORS + ALSO_PURE:
         fi = ctx.require(d)
         root = "self" if fi.cls is not None else "hg"
-        check_pure(ctx, eff, res, d, roots=(root,))
+        with res.guard("check_purectx, eff, res, d, rootsroot,"):
+            check_pure(ctx, eff, res, d, roots=(root,))
     for d in EXTRACTORS:
-        X.check_extraction(ctx, res, d)
-    X.check_subset_orientation(ctx, res, "Hypergraph.subhypergraph")
-    check_deepcopy(ctx, res, "Hypergraph.copy")
-    check_deepcopy(ctx, res, "DirectedHypergraph.copy")
-    F.check_forwarding(ctx, res, ["Hypergraph.subhypergraph_largest_component", "cc.largest_component"])
+        with res.guard("X.check_extractionctx, res, d"):
+            X.check_extraction(ctx, res, d)
+    with res.guard("X.check_subset_orientationctx, res, Hypergraph.subhypergraph"):
+        X.check_subset_orientation(ctx, res, "Hypergraph.subhypergraph")
+    with res.guard("check_deepcopyctx, res, Hypergraph.copy"):
+        check_deepcopy(ctx, res, "Hypergraph.copy")
+    with res.guard("check_deepcopyctx, res, DirectedHypergraph.copy"):
+        check_deepcopy(ctx, res, "DirectedHypergraph.copy")
+    with res.guard("F.check_forwardingctx, res, Hypergraph.subhypergraph_largest_component"):
+        F.check_forwarding(ctx, res, ["Hypergraph.subhypergraph_largest_component", "cc.largest_component"])
     res.assumptions += [
         "the extract is built through the public add_node(s)/add_edge(s)/set_*_metadata API, whose own correctness is C01/C02",
         "sharing of metadata dict objects between source and extract is not reported (C05 claims independence only for copy())",
